@@ -724,6 +724,7 @@ static Plan gen_plan(const string &cfg, uint64_t seed, long long index) {
         int nf = 1 + (int)sim_below(&w, 3);
         bool many = sim_below(&w, 30) == 0;
         bool huge = sim_below(&w, 40) == 0;        // lines far beyond the usual sizes, in several files of one invocation
+        if (cfg == "nofault-longfile") many = huge = false;     // (a long file times 257 operands, or times MiB lines, is gigabytes)
         if (many) {     // boundary values on the NUMBER of file operands (argv handling, per-file state, descriptors)
             static const int NF[] = { 15, 16, 17, 31, 32, 33, 63, 64, 65, 66, 100, 127, 128, 129, 255, 256, 257 };
             nf = NF[sim_below(&w, 17)];
@@ -745,7 +746,7 @@ static Plan gen_plan(const string &cfg, uint64_t seed, long long index) {
             if (many) nl = (int)sim_below(&w, 3);
             // rare long files: line / verdict counters (8- and 16-bit), many refills of the stream buffer
             if (!many && sim_below(&w, 120) == 0) nl = 250 + (int)sim_below(&w, 300);
-            if (cfg == "nofault-longfile") nl = 65500 + (int)sim_below(&w, 200);
+            if (cfg == "nofault-longfile" && iv == 0 && fi == 0) nl = 65500 + (int)sim_below(&w, 200);     // ONE file beyond 2^16 lines per plan
             vector<Op> lines;
             if (huge && sim_below(&w, 3) != 0) {
                 // up to a few MiB: a line (or four times a line) larger than the stack, than 2^20, than a pipe buffer
@@ -757,7 +758,8 @@ static Plan gen_plan(const string &cfg, uint64_t seed, long long index) {
                 lines.push_back(lo);
                 if (nl > 6) nl = 6;
             }
-            for (int l = 0; l < nl; l++) { Op lo = gen_line(w, longw); if (crlf_bias == 1) lo.t = 1; else if (crlf_bias == 2 && sim_below(&w, 2)) lo.t = 1; lines.push_back(lo); }
+            unsigned lw = (nl > 60000) ? 0 : longw;      // the file with > 2^16 lines is about counters, not about bytes
+            for (int l = 0; l < nl; l++) { Op lo = gen_line(w, lw); if (crlf_bias == 1) lo.t = 1; else if (crlf_bias == 2 && sim_below(&w, 2)) lo.t = 1; lines.push_back(lo); }
             if (!lines.empty() && sim_below(&w, 100) < 30) lines.back().t = 2;    // no final newline
             string data; vector<size_t> ends; vector<size_t> interesting;      // offsets where a chunk boundary is "interesting"
             for (auto &lo : lines) {
